@@ -177,7 +177,7 @@ current_prolog_flag(Flag, _) :-
     throw(error(type_error(atom, Flag), current_prolog_flag/2)). % 8.17.2.3 a
 
 answer_write_options(Value) :-
-    (   iso_ext:bb_get('$answer_write_options', Value) -> true
+    (   iso_ext:bb_get('$answer_write_options', Value0) -> Value = Value0
     ;   Value = []
     ).
 
